@@ -140,3 +140,32 @@ Proof.
   pose proof (Z.div_mod (x + a - 1) a ltac:(lia)) as Hd.
   pose proof (Z.mod_pos_bound (x + a - 1) a H) as Hm. nia.
 Qed.
+
+(* ---------- the platform-parametric size model, instantiated at amd64, is the amd64 model ---------- *)
+Lemma fold_left_ext_forall {A B} (f g : A -> B -> A) (P : B -> Prop) l :
+  Forall P l -> (forall a b, P b -> f a b = g a b) -> forall a0, fold_left f l a0 = fold_left g l a0.
+Proof.
+  intros HF H. induction HF as [|b r Hb _ IH]; intros a0; [reflexivity|].
+  cbn [fold_left]. rewrite (H a0 b Hb). apply IH.
+Qed.
+
+Lemma gsize_amd64 : forall t, gsize amd64 t = gc_sizeof t /\ galign amd64 t = gc_alignof t.
+Proof.
+  fix IH 1. intros t. destruct t as [ | | | | | | | | | | | | | | | | | | | n e | fs]; try (split; reflexivity).
+  - destruct (IH e) as [Hs Ha]. split; cbn [gsize gc_sizeof galign gc_alignof]; rewrite ?Hs, ?Ha; reflexivity.
+  - assert (Hall : Forall (fun f => gsize amd64 f = gc_sizeof f /\ galign amd64 f = gc_alignof f) fs).
+    { clear -IH. revert fs. fix F 1. intros [|f r]; [constructor|]. constructor; [apply IH|apply F]. }
+    assert (Hal : fold_left (fun m f => Z.max m (galign amd64 f)) fs 1 = fold_left (fun m f => Z.max m (gc_alignof f)) fs 1).
+    { apply (fold_left_ext_forall _ _ _ fs Hall). intros a b [_ Hb]. rewrite Hb. reflexivity. }
+    split; cbn [gsize gc_sizeof galign gc_alignof]; [|exact Hal].
+    rewrite Hal.
+    rewrite (fold_left_ext_forall
+               (fun st f => let o := align_up (fst st) (galign amd64 f) in (o + gsize amd64 f, gsize amd64 f))
+               (fun st f => let o := align_up (fst st) (gc_alignof f) in (o + gc_sizeof f, gc_sizeof f)) _ fs Hall).
+    + reflexivity.
+    + intros a b [Hs Ha]. cbn zeta. rewrite Hs, Ha. reflexivity.
+Qed.
+
+(* word-sized things shrink with the word *)
+Lemma gsize_word_scaled a : gsize a TString = 2 * word a /\ gsize a TSlice = 3 * word a /\ gsize a TInt = word a.
+Proof. repeat split. Qed.
